@@ -110,6 +110,7 @@ var driverMethodNames = map[string]bool{"Prepare": true, "PrepareContext": true,
 
 func checkC16(r *core.Run) {
 	r.Explain = "Decided statically: (C16.notraffic) on every call chain from a database/sql/driver entry point of the proxy types to a remoting sink (BranchRegister, BranchReport, LockQuery, SendSyncRequest) at least one call site is control-dependent on an accepted global-transaction predicate; (C16.forward) pass-through methods hand the target driver their own ctx / query / args (or the repo's value<->named conversion of them), never a fresh context, and use the executor's result only on its nil-error edge; (C16.noextra) outside a global transaction no failure source of the proxy's own (SQL parser, table-meta lookup) lies on the path of a statement; (C16.execctx) every ExecContext literal handed to an executor sets the non-boolean fields the live AT executors read. (C16.reset) when database/sql reuses a pooled connection (ResetSession delegating to the driver) the proxy's transaction context is a fresh one — or is cleared by a method that assigns every field of the context, the transaction mode included; (C16.once) a connection method that installs a one-statement transaction context (createOnceTxContext answered true) puts a fresh local context back on every exit, failing ones included — otherwise the connection keeps AT/XA mode and the old xid after the global transaction and later local work is treated as a branch; (C16.dispatch) the AT executor dispatch constructs an executor that issues statements of its own (image queries, lock queries) only on paths where tm.IsGlobalTx holds for the context of the current call — state kept in a TransactionContext is not accepted there, because a prepared statement keeps the context it was prepared with. (C16.noextra, also) a connection method that asks tm.IsGlobalTx assigns no field of the connection where the answer is no; NOT decided: result equivalence of arbitrary statement programs (differential behaviour)."
+	r.Explain += " Round 8: (C16.forward) every non-error exit of a live AT executor's ExecContext may have run the application's statement (callback called or handed on)."
 	r.Trusted = []string{"go/types, go/cfg", "CHA over repository types; database/sql/driver interfaces are the wrapped driver"}
 	w := r.W
 	pts := proxyTypes(w)
@@ -443,6 +444,7 @@ func checkC16(r *core.Run) {
 	c16ResetSession(r)
 	r.Floor("C16.reset", 1)
 	c16Delegates(r)
+	c16BusinessRuns(r)
 	r.Floor("C16.notraffic", 25)
 	r.Floor("C16.forward", 20)
 	c16NoStateOutside(r)
@@ -999,5 +1001,63 @@ func c16NoStateOutside(r *core.Run) {
 	}
 	if n == 0 {
 		r.Bad("C16.noextra", "connection methods that ask tm.IsGlobalTx", "", "none found")
+	}
+}
+
+// c16BusinessRuns (C16.forward): an executor of the AT proxy hands the application's statement to the database on
+// every path on which it reports success: each ExecContext of a live executor that is handed the business callback
+// has called it on every exit that returns a nil error. (Whether a statement "has nothing to do" is for the database
+// to say — its answer carries the affected count and last-insert id, and under READ COMMITTED the rows may exist by
+// the time the statement runs.)
+func c16BusinessRuns(r *core.Run) {
+	w := r.W
+	_, live := liveATExecutors(w)
+	n := 0
+	for _, t := range live {
+		f := methodInfo(w, t, "ExecContext")
+		if f == nil || f.Decl.Body == nil {
+			continue
+		}
+		var cb types.Object
+		for _, p := range paramObjs(f) {
+			if _, ok := p.Type().Underlying().(*types.Signature); ok {
+				cb = p
+			}
+		}
+		if cb == nil {
+			continue
+		}
+		sp := &flow.Spec{W: w, Depth: 0}
+		sp.Classify = func(pkg *packages.Package, call *ast.CallExpr, callee *types.Func) []flow.Tag {
+			// the callback itself, or a helper of the package that is handed it
+			if id, ok := ast.Unparen(call.Fun).(*ast.Ident); ok && pkg.TypesInfo.Uses[id] != nil && sp.RootOf(pkg.TypesInfo.Uses[id]) == cb {
+				return []flow.Tag{"business"}
+			}
+			// handed on: to another executor (a one-statement batch is given to the single-statement executor), or
+			// to a step outside this package that runs it
+			if w.Info(callee) == nil || w.Info(callee).Pkg != pkg || callee.Name() == "ExecContext" {
+				for _, a := range call.Args {
+					if id, ok := ast.Unparen(a).(*ast.Ident); ok && pkg.TypesInfo.Uses[id] != nil && sp.RootOf(pkg.TypesInfo.Uses[id]) == cb {
+						return []flow.Tag{"business"}
+					}
+				}
+			}
+			return nil
+		}
+		res := sp.Analyze(f)
+		r.Fn(f)
+		for _, ex := range res.Exits {
+			if ex.Class == flow.ExitErr {
+				continue
+			}
+			n++
+			r.Sites++
+			// (may: the locking read runs the statement inside a retry loop whose bound is configuration)
+			r.Check(ex.St.Maybe("business"), "C16.forward", core.ShortKey(f.Obj)+" "+exitRole(ex, func(t string) bool { return strings.HasSuffix(t, "business") })+" has run the application's statement", w.Pos(ex.Pos),
+				"the business callback was called on every path to this return", "the executor reports success without having handed the application's statement to the database: affected count, last-insert id and — when a row appeared meanwhile — the data differ from what the bare driver gives")
+		}
+	}
+	if n == 0 {
+		r.Undecided("C16.forward", "AT executors calling the business callback", "", "none found")
 	}
 }
